@@ -14,20 +14,25 @@ Section PersistValues.
   Variable dec : B -> option W.
   Variable PN : Type.
   Variable view : W -> wb_view.
-  Variable parse_names : W -> PN.
+  Variable parse_names : wb_view -> PN.
+  Variable cf_eval : W -> W.
   Variable valid_locale valid_tz valid_lang : text -> bool.
   Variable lex_rc : text -> list Token.token.
   Variable nm : Printer.names.
   Hypothesis bitcode_rt : forall w, dec (enc w) = Some w.
+  Hypothesis cf_view : forall w, view (cf_eval w) = view w.
+  Hypothesis cf_none : forall w, v_has_cf (view w) = false -> cf_eval w = w.
 
   Variable num : Type.
   Variable N : NumOps num.
   (* the evaluator's inputs: a function of the stored workbook and the parsed formulas *)
   Variable inputs_of : W -> list (list Ast.ast) -> cref -> content (num:=num).
+  (* evaluate_conditional_formatting rewrites computed values, not inputs *)
+  Hypothesis cf_inputs : forall w p, same_inputs (inputs_of (cf_eval w) p) (inputs_of w p).
 
   Theorem load_save_values (m m' : model W PN) lang :
     consistent W PN view lex_rc nm m ->
-    from_bytes W B dec PN view parse_names valid_locale valid_tz valid_lang lex_rc nm (to_bytes W B enc PN m) lang = Ok m' ->
+    from_bytes W B dec PN view parse_names cf_eval valid_locale valid_tz valid_lang lex_rc nm (to_bytes W B enc PN m) lang = Ok m' ->
     let cont0 := inputs_of (m_wb m) (m_parsed m) in
     let cont0' := inputs_of (m_wb m') (m_parsed m') in
     (forall c, plain_content (cont0 c)) ->
@@ -42,12 +47,14 @@ Section PersistValues.
     value_at (evaluate_in N k o1 st1) c = value_at (evaluate_in N k o2 st2) c.
   Proof.
     intros Hc Hl cont0 cont0'.
-    assert (E : cont0' = cont0).
+    assert (E : same_inputs cont0' cont0).
     { unfold cont0', cont0.
-      rewrite (load_save_formulas W B enc dec PN view parse_names valid_locale valid_tz valid_lang lex_rc nm bitcode_rt m lang m' Hc Hl).
-      destruct (load_save_workbook W B enc dec PN view parse_names valid_locale valid_tz valid_lang lex_rc nm bitcode_rt m lang m' Hl) as (Hw & _).
-      rewrite Hw. reflexivity. }
-    rewrite E. intros Hp rank Hr Hs k Hk o1 o2 st1 st2 H1 H2 H3 H4 c I1 I2.
-    exact (values_depend_on_inputs_only N cont0 Hp rank Hr Hs k Hk o1 o2 st1 st2 H1 H2 H3 H4 c I1 I2).
+      rewrite (load_save_formulas W B enc dec PN view parse_names cf_eval valid_locale valid_tz valid_lang lex_rc nm bitcode_rt cf_view cf_none m lang m' Hc Hl).
+      destruct (load_save_workbook W B enc dec PN view parse_names cf_eval valid_locale valid_tz valid_lang lex_rc nm bitcode_rt cf_view cf_none m lang m' Hl) as (Hw & _).
+      rewrite Hw. apply cf_inputs. }
+    intros Hp rank Hr Hs k Hk o1 o2 st1 st2 H1 H2 H3 H4 c I1 I2.
+    assert (H3' : same_inputs cont0 (cont st2)).
+    { intro x. rewrite <- (E x). apply H3. }
+    exact (values_depend_on_inputs_only N cont0 Hp rank Hr Hs k Hk o1 o2 st1 st2 H1 H2 H3' H4 c I1 I2).
   Qed.
 End PersistValues.
